@@ -211,6 +211,18 @@ contract(H + "polymod_list", props=("C09", "C20"), params={"values": LIST5},
          ensures=["returns()", "result == spec.text.bech32_polymod(values)"], gen=_gen_vals)
 
 
+# EVERY list length: the loop of bech32_polymod is cut by the invariant "chk is the recursively defined BIP173 register
+# after _k symbols" (spec.text.polymod_rec, one independent GF(32) shift-register step per symbol); the body is verified
+# once for an arbitrary 30-bit register and an arbitrary 5-bit symbol in 40-bit bit-vector mode
+from verif.pyvc import symlist as _symlist
+contract("buidl.bech32.bech32_polymod#anylen", props=("C09", "C20"), bv=40,
+         params={"values": _symlist.symvalues("v5", ("int", 0, 31), max_len=2**24)},
+         ensures=["returns()", "result == spec.text.polymod_rec(values, len(values))", "0 <= result < 2**30"],
+         invariants={1: {"inv": ["chk == spec.text.polymod_rec(values, _k)", "0 <= chk < 2**30"],
+                         "types": {"chk": ("int", 0, 2**30 - 1)}}},
+         gen=_gen_vals)
+
+
 def _gen_hrp(rng, tier):
     for h in ("bc", "tb", "bcrt", "a", "?", "split", "an83characterlonghumanreadablepartthatcontainsthenumber1andtheexcludedcharactersbio"):
         yield {"s": h}
@@ -448,6 +460,33 @@ for _f in ("addr_to_spk", "txout_spk"):
     contract(H + _f + "#accepts-uppercase", props=("C09",), params={"addr": STR},
              requires=["spec.text.address_reject_reason(addr) is None", "addr[:1] in 'BT'"],
              ensures=["returns()", "result == spec.text.address_to_spk(addr)[0]"], gen=_gen_addr_reason("upper"))
+
+
+# history (seed C09-E: decoded addresses memoised under the lower-cased spelling): a valid address, then a spelling of it
+# with the case of some letters changed -- a different Base58 string (checksum no longer matches / characters outside the
+# alphabet) or a mixed-case segwit string; the second call is judged by the spec on its own
+def _gen_addr_history(rng, tier):
+    def variants(a):
+        idx = [i for i, c in enumerate(a) if c.isalpha()]
+        for i in (idx[:2] + idx[-2:] + [rng.choice(idx) for _ in range(3)]):
+            yield a[:i] + a[i].swapcase() + a[i + 1:]
+        yield a.swapcase()
+        yield a.lower()
+        yield a.upper()
+    n = 0
+    while True:
+        a = crafted_address(rng, None)
+        for v in variants(a):
+            if v != a:
+                yield {"first": a, "second": v}
+                yield {"first": v, "second": a}
+        n += 1
+
+
+contract(H + "addr_after_addr", props=("C09",), params={"first": STR, "second": STR}, tiers=("runtime-only",),
+         ensures=["implies(spec.text.address_reject_reason(second) is not None, not returns())",
+                  "implies(spec.text.address_reject_reason(second) is None, returns() and result == spec.text.address_to_spk(second)[0])"],
+         gen=_gen_addr_history)
 
 
 # ------------------------------------------------------------------------------------------- WIF
